@@ -179,6 +179,7 @@ func threeShardProfile(tier Tier, oracles []explore.Oracle) *explore.Profile {
 			for _, n := range []string{"mixed", "refunds"} {
 				b := uni.SeedBuilder(env, n)
 				// the third party e2 (shard 2) holds both kinds as well
+				b.Must(uni.Call(uni.A0, uni.A0, vmcommon.BuiltInFunctionESDTLocalMint, uni.F, uni.Big(4)))
 				b.Must(uni.ESDTTransfer(uni.A0, uni.E2, uni.F, 2)).DeliverAll()
 				b.Must(uni.NFTTransfer(uni.A0, uni.E2, uni.S, 1, 1)).DeliverAll()
 				out = append(out, explore.SeedState{Name: n + "+e2", W: b.W, Legs: b.Legs, Failed: b.Failed})
